@@ -2,44 +2,65 @@
 (***************************************************************************)
 (* C20: N requests served concurrently by one generated API value and sent *)
 (* through one generated Client.  Every request r runs the Wire machine    *)
-(*   Call -> Parse -> Respond -> Return                                    *)
+(*   Call -> Chain -> Auth -> Parse -> Respond -> Return                   *)
 (* on its own state st[r]; the package-level state (LogError, specFileBs,  *)
-(* the API and Client values) is only read.  Isolation: the parameters a   *)
-(* handler sees are those of its own request and the caller receives the   *)
-(* response produced for its request.                                      *)
-(* SharedScratch = TRUE models the class of defect the property excludes:  *)
-(* a package-level scratch value written by one request and read by        *)
-(* another (never the case in the pinned templates, where all per-request  *)
-(* state lives in locals of ServeHTTP / new<Op>Params / Client.<Op>).      *)
+(* the API and Client values, among them the API.Middlewares slice and its *)
+(* backing array) is only read.  Isolation: the security check a request   *)
+(* passes is the one of its own operation, the parameters a handler sees   *)
+(* are those of its own request and the caller receives the response       *)
+(* produced for its request.                                               *)
+(* Chain is ServeHTTP composing the handler for this request: the user     *)
+(* middlewares (shared, read) around the operation's own security          *)
+(* middleware (a fresh value per request).                                 *)
+(* Two switches model the classes of defect the property excludes (never   *)
+(* the case in the pinned templates, where all per-request state lives in  *)
+(* locals of ServeHTTP / new<Op>Params / Client.<Op>):                     *)
+(*   SharedScratch  a package-level scratch value written by one request   *)
+(*                  and read by another;                                   *)
+(*   AppendInPlace  the per-request chain is built by appending to the     *)
+(*                  shared Middlewares slice, whose spare capacity makes   *)
+(*                  the append write into the shared backing array.        *)
 (***************************************************************************)
 EXTENDS Naturals, FiniteSets, TLC
 
-CONSTANTS Req, SharedScratch
-VARIABLES st, scratch
-vars == <<st, scratch>>
+CONSTANTS Req, SharedScratch, AppendInPlace
+VARIABLES st, scratch, slot
+vars == <<st, scratch, slot>>
 
-Idle == [pc |-> "idle", sent |-> 0, parsed |-> 0, resp |-> 0, ret |-> 0]
-Init == st = [r \in Req |-> Idle] /\ scratch = 0
+Idle == [pc |-> "idle", sent |-> 0, chain |-> 0, authedBy |-> 0, parsed |-> 0, resp |-> 0, ret |-> 0]
+Init == st = [r \in Req |-> Idle] /\ scratch = 0 /\ slot = 0
 
-\* tags: request r (a natural number) sends r, its handler answers 100 + r
+\* tags: request r (a natural number) sends r, its handler answers 100 + r;
+\* its operation requires security scheme Scheme(r)
 Tag(r) == r
+Scheme(r) == 1 + (r % 2)
 
 Call(r)   == /\ st[r].pc = "idle"
              /\ st' = [st EXCEPT ![r].pc = "called", ![r].sent = Tag(r)]
              /\ scratch' = IF SharedScratch THEN Tag(r) ELSE scratch
-Parse(r)  == /\ st[r].pc = "called"
-             /\ st' = [st EXCEPT ![r].pc = "parsed", ![r].parsed = IF SharedScratch THEN scratch ELSE st[r].sent]
+             /\ UNCHANGED slot
+Chain(r)  == /\ st[r].pc = "called"
+             /\ st' = [st EXCEPT ![r].pc = "chained", ![r].chain = Scheme(r)]
+             /\ slot' = IF AppendInPlace THEN Scheme(r) ELSE slot        \* the spare slot of the shared backing array
              /\ UNCHANGED scratch
+Auth(r)   == /\ st[r].pc = "chained"
+             /\ st' = [st EXCEPT ![r].pc = "authed", ![r].authedBy = IF AppendInPlace THEN slot ELSE st[r].chain]
+             /\ UNCHANGED <<scratch, slot>>
+Parse(r)  == /\ st[r].pc = "authed"
+             /\ st' = [st EXCEPT ![r].pc = "parsed", ![r].parsed = IF SharedScratch THEN scratch ELSE st[r].sent]
+             /\ UNCHANGED <<scratch, slot>>
 Respond(r) == /\ st[r].pc = "parsed"
               /\ st' = [st EXCEPT ![r].pc = "responded", ![r].resp = 100 + Tag(r)]
-              /\ UNCHANGED scratch
+              /\ UNCHANGED <<scratch, slot>>
 Return(r) == /\ st[r].pc = "responded"
              /\ st' = [st EXCEPT ![r].pc = "done", ![r].ret = st[r].resp]
-             /\ UNCHANGED scratch
-Next == \E r \in Req : Call(r) \/ Parse(r) \/ Respond(r) \/ Return(r)
+             /\ UNCHANGED <<scratch, slot>>
+Next == \E r \in Req : Call(r) \/ Chain(r) \/ Auth(r) \/ Parse(r) \/ Respond(r) \/ Return(r)
 Spec == Init /\ [][Next]_vars
 
-Isolated == \A r \in Req : /\ (st[r].pc \in {"parsed", "responded", "done"} => st[r].parsed = st[r].sent)
+After(r, pcs) == st[r].pc \in pcs
+Isolated == \A r \in Req : /\ (After(r, {"authed", "parsed", "responded", "done"}) => st[r].authedBy = Scheme(r))
+                           /\ (After(r, {"parsed", "responded", "done"}) => st[r].parsed = st[r].sent)
                            /\ (st[r].pc = "done" => st[r].ret = st[r].resp /\ st[r].ret = 100 + st[r].sent)
-SharedReadOnly == [][SharedScratch \/ scratch' = scratch]_vars
+SharedReadOnly == [][(SharedScratch \/ scratch' = scratch) /\ (AppendInPlace \/ slot' = slot)]_vars
 =============================================================================
